@@ -55,6 +55,9 @@ type WriteCase struct {
 	// values, so the stream consists of several batches written by one Writer.
 	Shared      []SymImport `json:"shared_tables,omitempty"`
 	FinishEvery int         `json:"finish_every,omitempty"`
+	// SysAt > 0: the caller also lists the system symbol table itself among the tables, at position
+	// SysAt-1 (first, as Imports() of a reader's table has it, or further down)
+	SysAt int `json:"system_table_listed_at,omitempty"`
 }
 
 func (k WriteCase) variant() string {
@@ -64,6 +67,11 @@ func (k WriteCase) variant() string {
 	}
 	if k.FinishEvery > 0 {
 		s += "+batches"
+	}
+	if k.SysAt == 1 {
+		s += "+system-table-listed-first"
+	} else if k.SysAt > 1 {
+		s += "+system-table-listed-later"
 	}
 	return s
 }
@@ -79,6 +87,13 @@ func writeOnce(k WriteCase) (out []byte, werr error, panicMsg string) {
 	var ssts []ion.SharedSymbolTable
 	for _, t := range k.Shared {
 		ssts = append(ssts, ion.NewSharedSymbolTable(t.Name, t.Version, t.Symbols))
+	}
+	if k.SysAt > 0 {
+		at := k.SysAt - 1
+		if at > len(ssts) {
+			at = len(ssts)
+		}
+		ssts = append(ssts[:at:at], append([]ion.SharedSymbolTable{ion.V1SystemSymbolTable}, ssts[at:]...)...)
 	}
 	w := NewWriterMode(k.Mode, &buf, ssts...)
 	o := &ionx.WriteOpts{Rnd: rand.New(rand.NewSource(k.CaseSeed)), IntVia: k.IntVia, SymbolFromString: true}
@@ -499,7 +514,10 @@ func runWriteMonitor(c *Ctx, sub string, judge func(WriteCase, []byte) string) {
 			if rep != 0 && len(vals) > 1 {
 				k.FinishEvery = 1 + r.Intn(3)
 			}
-			if len(k.Shared) == 0 && k.FinishEvery == 0 {
+			if r.Intn(3) == 0 {
+				k.SysAt = 1 + r.Intn(len(k.Shared)+1)
+			}
+			if len(k.Shared) == 0 && k.FinishEvery == 0 && k.SysAt == 0 {
 				continue
 			}
 			c.Feat1("writer" + k.variant())
